@@ -117,6 +117,15 @@ def run(tier):
     res = vlib.run_harness("fv-total", ["c02", "charmap", "--cases", r.out, "--out", os.path.join(wd, "charmap.ndjson")], timeout=1200)
     ck.add_harness("replay:charmap-selection", res, traces=False)
     os.remove(r.out)
+    # which line metrics the font-wide Metrics reports: LineMetrics.tla's decision table (OS/2 typographic / hhea / Windows)
+    vlib.stage_specs(wd, "metrics")
+    r = vlib.run_tlc(wd, "LineMetricsMC", cfg="LineMetricsMC.cfg", workers=2, timeout=600, out_name="linemetrics.out")
+    ck.add_tlc("tlc:LineMetrics", r)
+    if not r.ok:
+        ck.spec_error("LineMetricsMC", r)
+    res = vlib.run_harness("fv-total", ["c02", "linemetrics", "--cases", r.out, "--out", os.path.join(wd, "linemetrics.ndjson")], timeout=600)
+    ck.add_harness("replay:line-metrics", res, traces=False)
+    os.remove(r.out)
     # the CFF / CFF2 charstring evaluator: Charstring.tla as a state machine over a program family (bounds, halting), every
     # program replayed on the real evaluator in a child process, and the charstrings of the corpus CFF fonts validated
     vlib.stage_specs(wd, "cff")
